@@ -99,7 +99,10 @@ type Universe struct {
 	Skipped    int // recipe elements dropped at build time (ineligible uncles, gas overflow)
 	usedUncles []usedUncle
 	nodes      []*Node
-	Contracts  map[string]common.Address
+	// TxMeta[id][i] is the recipe of the i-th transaction actually included in block id
+	TxMeta    [][]TxRecipe
+	curMeta   []TxRecipe
+	Contracts map[string]common.Address
 }
 
 // Contract templates (hand-assembled; each has a known effect).
@@ -226,6 +229,7 @@ func Build(r *Recipe) (u *Universe, err error) {
 	u.Receipts = []types.Receipts{nil}
 	u.TD = []*big.Int{new(big.Int).Set(gblock.Difficulty())}
 	u.TxOf = [][]*types.Transaction{nil}
+	u.TxMeta = [][]TxRecipe{nil}
 	u.ByHash[gblock.Hash()] = 0
 
 	for idx := range r.Blocks {
@@ -235,9 +239,11 @@ func Build(r *Recipe) (u *Universe, err error) {
 			return nil, fmt.Errorf("recipe block %d has bad parent %d", id, br.Parent)
 		}
 		parent := u.Blocks[br.Parent]
+		u.curMeta = nil
 		blocks, receipts := core.GenerateChain(ctx, u.Cfg, parent, u.Engine, u.ODB, 1, func(_ int, g *core.BlockGen) {
 			u.fillBlock(g, id, br, parent)
 		})
+		u.TxMeta = append(u.TxMeta, u.curMeta)
 		b := blocks[0]
 		u.Blocks = append(u.Blocks, b)
 		u.Parent = append(u.Parent, br.Parent)
@@ -374,6 +380,7 @@ func (u *Universe) fillBlock(g *core.BlockGen, id int, br *BlockRecipe, parent *
 		}
 		gasBudget -= gas
 		g.AddTx(tx)
+		u.curMeta = append(u.curMeta, *tr)
 		nonces[from]++
 	}
 	// uncles: keep only candidates the consensus rules allow
